@@ -2,8 +2,10 @@ package main
 
 import (
 	"bytes"
+	"encoding/binary"
 	"fmt"
 	"github.com/fxamacker/cbor/v2"
+	"math"
 	"math/big"
 
 	cose "github.com/veraison/go-cose"
@@ -32,6 +34,8 @@ func inDataModel(v any, depth int) bool {
 		return true
 	case []byte:
 		return t != nil
+	case float64: // any bit pattern (EncDec.simple admits floats since the float case of enc_dec was proved)
+		return true
 	case []any:
 		for _, e := range t {
 			if !inDataModel(e, depth+1) {
@@ -540,6 +544,7 @@ func runC08(c *Collector, r *Rng, thorough bool) {
 	c08KeyLabelTwice(c)
 	c08CsigLists(c)
 	c08ByteLikeValues(c)
+	c08Floats(c)
 }
 
 func genGoPayloadNonNil(r *Rng) []byte {
@@ -1619,6 +1624,141 @@ func c08ByteLikeValues(c *Collector) {
 			var back cose.SignMessage
 			if derr := back.UnmarshalCBOR(out); derr != nil {
 				c.Fail("C08/not-decodable", "SignMessage.MarshalCBOR returned bytes its own decoder refuses: "+derr.Error(), map[string]any{"out": hx(out)})
+			}
+		}
+	}
+}
+
+// c08Floats: float64 header values of every class of bit pattern (finite, +-0, subnormal, largest, the infinities,
+// quiet / signalling NaNs with payloads and either sign), alone, in an array and in a nested map, in both buckets:
+// the bytes are the ones the rule of the encoder mode prescribes (NaN -> f9 7e00, infinities -> half precision,
+// everything else fb + the 64 bits), canonical, equal to the model's, accepted by the decoder, the value comes back
+// (a NaN as a NaN), and the decoded bucket encodes to the same bytes again (EncDec.enc_dec / FixedPoint.rel_enc,
+// float case).
+func c08Floats(c *Collector) {
+	bits := []uint64{0x3ff8000000000000, 0xbff8000000000000, 0, 0x8000000000000000, 1, 0x800fffffffffffff, 0x0010000000000000,
+		0x7fefffffffffffff, 0xffefffffffffffff, 0x7ff0000000000000, 0xfff0000000000000, 0x7ff8000000000000, 0x7ff8000000000001,
+		0x7ff0000000000001, 0xfff8000000000000, 0xffffffffffffffff, 0x7ff4000000000000, 0x3c00000000000000, 0x7e00000000000000,
+		0x40091eb851eb851f, 0x4170000000000000, 0x47efffffe0000000, 0x3810000000000000, 0x7fefffffffffffff - 1, 0x7ff0000000000000 - 1,
+		0x7ff0000000000000 + (1 << 51), 0xfff0000000000000 + 1}
+	want := func(b uint64) []byte {
+		f := math.Float64frombits(b)
+		switch {
+		case math.IsNaN(f):
+			return []byte{0xf9, 0x7e, 0x00}
+		case math.IsInf(f, 1):
+			return []byte{0xf9, 0x7c, 0x00}
+		case math.IsInf(f, -1):
+			return []byte{0xf9, 0xfc, 0x00}
+		}
+		out := []byte{0xfb, 0, 0, 0, 0, 0, 0, 0, 0}
+		binary.BigEndian.PutUint64(out[1:], b)
+		return out
+	}
+	same := func(a any, b uint64) bool {
+		f, ok := a.(float64)
+		if !ok {
+			return false
+		}
+		if math.IsNaN(math.Float64frombits(b)) {
+			return math.IsNaN(f)
+		}
+		return math.Float64bits(f) == b
+	}
+	cGvRawNaN = true
+	defer func() { cGvRawNaN = false }()
+	for _, b := range bits {
+		f := math.Float64frombits(b)
+		for shape := 0; shape < 3; shape++ {
+			var v any = f
+			var item []byte
+			switch shape {
+			case 1:
+				v = []any{int64(1), f, "x"}
+				item = append(append([]byte{0x83, 0x01}, want(b)...), 0x61, 'x')
+			case 2:
+				v = map[any]any{"f": f, int64(2): []any{f}}
+				item = append(append(append([]byte{0xa2, 0x02, 0x81}, want(b)...), 0x61, 'f'), want(b)...)
+			default:
+				item = want(b)
+			}
+			pick1 := func(got any) (any, bool) {
+				switch shape {
+				case 1:
+					a, ok := got.([]any)
+					if !ok || len(a) != 3 {
+						return nil, false
+					}
+					return a[1], true
+				case 2:
+					m, ok := got.(map[any]any)
+					if !ok || len(m) != 2 {
+						return nil, false
+					}
+					a, ok := m[int64(2)].([]any)
+					if !ok || len(a) != 1 || !same(a[0], b) {
+						return nil, false
+					}
+					return m["f"], true
+				}
+				return got, true
+			}
+			for _, prot := range []bool{true, false} {
+				rep := map[string]any{"bits": fmt.Sprintf("%016x", b), "shape": shape, "protected": prot}
+				var op, obs string
+				var out []byte
+				var err error
+				var p bool
+				var exp []byte
+				if prot {
+					ph := cose.ProtectedHeader{cose.HeaderLabelAlgorithm: cose.AlgorithmES256, int64(300): v}
+					op, obs, out, err, p = execEncProt(ph)
+					c08Check(c, "enc/protected-float", op, obs, out, err, p, "DProt", func() ([]byte, error) { return ph.MarshalCBOR() }, 3, true)
+					content := append([]byte{0xa2, 0x01, 0x26, 0x19, 0x01, 0x2c}, item...)
+					exp = refBstr(content)
+				} else {
+					uh := cose.UnprotectedHeader{int64(300): v}
+					op, obs, out, err, p = execEncUnprot(uh)
+					c08Check(c, "enc/unprotected-float", op, obs, out, err, p, "DUnprot", func() ([]byte, error) { return uh.MarshalCBOR() }, 3, true)
+					exp = append([]byte{0xa1, 0x19, 0x01, 0x2c}, item...)
+				}
+				c.Eval("float-values", fmt.Sprintf("%016x/%d/%v", b, shape, prot), err == nil)
+				if p {
+					continue
+				}
+				rep["out"] = hx(out)
+				if err != nil {
+					c.Fail("C08/float-refused", fmt.Sprintf("a bucket holding the float64 %016x is refused by the encoder: %v", b, err), rep)
+					continue
+				}
+				if !bytes.Equal(out, exp) {
+					c.Fail("C08/float-bytes", fmt.Sprintf("float64 %016x: encoder wrote %x, the encoding rule (NaN f97e00, infinities in half precision, otherwise 64 bits) gives %x", b, out, exp), rep)
+					continue
+				}
+				var got any
+				var again []byte
+				var e2 error
+				if prot {
+					var back cose.ProtectedHeader
+					if back.UnmarshalCBOR(out) != nil {
+						continue // reported by c08Check
+					}
+					got = back[int64(300)]
+					again, e2 = back.MarshalCBOR()
+				} else {
+					var back cose.UnprotectedHeader
+					if back.UnmarshalCBOR(out) != nil {
+						continue
+					}
+					got = back[int64(300)]
+					again, e2 = back.MarshalCBOR()
+				}
+				if g1, ok := pick1(got); !ok || !same(g1, b) {
+					c.Fail("C08/not-equivalent", fmt.Sprintf("float64 %016x comes back as %T %v", b, got, got), rep)
+				}
+				if e2 != nil || !bytes.Equal(again, out) {
+					c.Fail("C08/float-not-fixed-point", fmt.Sprintf("the decoded bucket encodes to %x (%v), not to the bytes it was decoded from", again, e2), rep)
+				}
 			}
 		}
 	}
